@@ -6,24 +6,26 @@
    Ghost fields used in the statements (all append-only, see [step]):
      accpre s   ids whose Offer was accepted before Shutdown was called     (accpre_spec reads it off the trace)
      begun s    ids handed to the export function, one entry per call that contains the id
+     nparts s   one entry per part (chunk) a request was cut into by the batcher (max_size); 1 per request otherwise
+     partlog s  (id, result) of every part that has reported
      ended s    the same for calls that have returned;   failures s = number of calls that returned an error,
                 failedids s = the ids those failed calls contained
      finished s (id, result of the sender chain) once the queue's Done callback has run
      store s    persistent queue: ids whose body is in the storage *)
 From Coq Require Import Permutation.
-From Verif Require Import Common.Base C03.Model C03.Proofs C03.Proofs2 C03.Proofs3.
+From Verif Require Import Common.Base C03.Model C03.Proofs C03.ProofsB C03.Proofs2 C03.Proofs3.
 
 (* ---- in-memory queue ---------------------------------------------------------------------------
    When Shutdown has returned, every request accepted before Shutdown was called has been handed to the
-   export function at least once — exactly once if no export call of the run failed, and more precisely
-   exactly once if no export call CONTAINING that request failed ([failedids]) — its Done callback has
-   run, and every export call has returned. *)
+   export function at least once — and every part it was cut into (max_size; one part if it was not split)
+   exactly once if no export call of the run failed, more precisely if no export call CONTAINING a part of that
+   request failed ([failedids]) — its Done callback has run, and every export call has returned. *)
 Theorem shutdown_drains_memory : forall c ls s,
-  c_persist c = false -> 1 <= c_ncons c ->
+  c_queue c = true -> c_persist c = false -> 1 <= c_ncons c ->
   run c (init c) ls = Some s -> pc s = PReturned ->
   (forall i, In i (accpre s) ->
-     1 <= cnt i (begun s) /\ (failures s = 0 -> cnt i (begun s) = 1) /\
-     (~ In i (failedids s) -> cnt i (begun s) = 1) /\ exists r, In (i, r) (finished s))
+     1 <= cnt i (begun s) /\ (failures s = 0 -> cnt i (begun s) = cnt i (nparts s)) /\
+     (~ In i (failedids s) -> cnt i (begun s) = cnt i (nparts s)) /\ exists r, In (i, r) (finished s))
   /\ (forall i, cnt i (ended s) = cnt i (begun s)).
 Proof. exact drains_memory_l. Qed.
 
@@ -39,38 +41,40 @@ Proof. exact accpre_spec_l. Qed.
    interruption — and was then handed to the export function at least once; all export calls have
    returned; the storage client has been closed (hence: not before the last in-flight item completed). *)
 Theorem shutdown_persistent : forall c ls s,
-  c_persist c = true -> run c (init c) ls = Some s -> pc s = PReturned ->
+  c_queue c = true -> c_persist c = true -> run c (init c) ls = Some s -> pc s = PReturned ->
   (forall i, In i (accepted s) ->
      In i (store s) \/ exists r, In (i, r) (finished s) /\ r <> RShutdown /\ 1 <= cnt i (begun s))
   /\ (forall i, cnt i (ended s) = cnt i (begun s))
   /\ closed s = true.
 Proof. exact persistent_l. Qed.
 
-(* the storage client is closed exactly when no reference is left: while a request is in flight
-   (taken from the queue, not yet Done) the client stays open, also after the queue was stopped *)
+(* the storage client is closed exactly when no reference is left, and the references are: one for the queue
+   until it is stopped, one per request taken from the queue whose Done has not run (for a split request:
+   until its LAST part has reported) *)
 Theorem client_open_while_in_flight : forall c ls s,
-  c_persist c = true -> run c (init c) ls = Some s ->
-  closed s = Nat.eqb (refs s) 0 /\ refs s = (if qstop s then 0 else 1) + inflight_len s.
+  c_queue c = true -> c_persist c = true -> run c (init c) ls = Some s ->
+  closed s = Nat.eqb (refs s) 0 /\
+  refs s + length (finished s) = (if qstop s then 0 else 1) + length (taken s).
 Proof.
-  exact (fun c ls s P R =>
+  exact (fun c ls s Q P R =>
     let I := run_inv c ls (init c) s (init_inv c) R in
-    conj (eq_trans (i_closed c s I) (f_equal (fun b => b && Nat.eqb (refs s) 0) P)) (i_refs c s I P)).
+    conj (eq_trans (i_closed c s I) (f_equal (fun b => b && Nat.eqb (refs s) 0) P)) (i_refs c s I P Q)).
 Qed.
 
 (* ---- nothing happens after the return ------------------------------------------------------------
    In a state where Shutdown has returned no helper goroutine is alive, and the only enabled labels are
    producers' offers: no consumer, flush, timer, retry or export step — in particular no export begin. *)
 Theorem no_work_after_return : forall c ls s,
-  run c (init c) ls = Some s -> pc s = PReturned ->
+  c_queue c = true -> run c (init c) ls = Some s -> pc s = PReturned ->
   live s = 0 /\ postb s = 0 /\ forall l s', step c s l = Some s' -> is_offer l = true /\ pc s' = PReturned.
 Proof. exact after_return_l. Qed.
 
 (* trace form: whatever follows a returned state consists of offers only and begins no export;
    moreover no export ever begins once the wrapped exporter has been shut down ([postb] counts them) *)
-Theorem no_begin_after_return : forall c ls2 ls1 s1 s2,
+Theorem no_begin_after_return : forall c, c_queue c = true -> forall ls2 ls1 s1 s2,
   run c (init c) ls1 = Some s1 -> pc s1 = PReturned -> run c s1 ls2 = Some s2 ->
   forallb is_offer ls2 = true /\ begun s2 = begun s1 /\ pc s2 = PReturned.
-Proof. exact (fun c => no_begin_after_return_l c). Qed.
+Proof. exact no_begin_after_return_l. Qed.
 
 Theorem no_begin_after_inner_shutdown : forall c ls s, run c (init c) ls = Some s -> postb s = 0.
 Proof. exact (fun c ls s R => i_postb c s (run_inv c ls (init c) s (init_inv c) R)). Qed.
@@ -79,7 +83,7 @@ Proof. exact (fun c ls s R => i_postb c s (run_inv c ls (init c) s (init_inv c) 
    Whatever sits in the batcher's current batch at ANY point of a run (in particular when the final
    flush takes it) has been exported and finished by the time Shutdown returns; both queue kinds. *)
 Theorem partial_batch_flushed : forall c ls1 ls2 s1 s2,
-  run c (init c) ls1 = Some s1 -> run c s1 ls2 = Some s2 -> pc s2 = PReturned ->
+  c_queue c = true -> run c (init c) ls1 = Some s1 -> run c s1 ls2 = Some s2 -> pc s2 = PReturned ->
   forall i, In i (current s1) -> 1 <= cnt i (begun s2) /\ exists r, In (i, r) (finished s2).
 Proof. exact partial_batch_l. Qed.
 
@@ -99,22 +103,13 @@ Proof. exact final_flush_takes. Qed.
    branch when both are ready (zero/elapsed interval, finding S4 of C05), and the faithful model allows
    it, so an unconditional statement is false of the model: see shutdown_terminates_refuted. *)
 Theorem shutdown_terminates_partial : forall c ls s,
-  (c_batch c = true -> 1 <= c_nwork c) ->
+  (c_batch c = true -> 1 <= c_nwork c) /\ 1 <= c_maxparts c ->
   run c (init c) ls = Some s -> is_not (pc s) = false ->
-  (exists ls' s', run c s ls' = Some s' /\ pc s' = PReturned /\ forallb ranked ls' = true /\ length ls' <= mu s)
-  /\ (pc s <> PReturned -> exists l s', step c s l = Some s' /\ ranked l = true /\ mu s' < mu s)
+  (exists ls' s', run c s ls' = Some s' /\ pc s' = PReturned /\ forallb ranked ls' = true /\ length ls' <= mu c s)
+  /\ (pc s <> PReturned -> exists l s', step c s l = Some s' /\ ranked l = true /\ mu c s' < mu c s)
   /\ (forall ls' s', run c s ls' = Some s' -> forallb ranked ls' = true ->
-        mu s' + length (filter (fun l => match l with LTimerFire => false | _ => true end) ls') <= mu s).
-Proof.
-  exact (fun c ls s WF R N =>
-    let I := run_inv c ls (init c) s (init_inv c) R in
-    conj (reach_return c WF (mu s) s (le_n _) I N)
-      (conj (fun NR => match progress c s I WF N NR with
-                       | ex_intro _ l (ex_intro _ s' (conj St (conj Rk NT))) =>
-                           ex_intro _ l (ex_intro _ s' (conj St (conj Rk (strict c s l s' St Rk NT))))
-                       end)
-            (fun ls' s' => ranked_runs_bounded c ls' s s'))).
-Qed.
+        mu c s' + length (filter (fun l => match l with LTimerFire => false | _ => true end) ls') <= mu c s).
+Proof. exact terminates_l. Qed.
 
 (* The unconditional statement ("from every reachable state after close(stopCh), every maximal run of the
    exporter's own threads with an answering backend reaches Return") is FALSE of the faithful model:
@@ -124,7 +119,7 @@ Qed.
    stopCh ready together, i.e. a zero or already elapsed interval.) *)
 Theorem shutdown_terminates_refuted : exists c ls s cyc s',
   run c (init c) ls = Some s /\ rstop s = true /\ is_not (pc s) = false /\ pc s <> PReturned /\
-  cyc <> [] /\ run c s cyc = Some s' /\ ctl s' = ctl s /\ mu s' = mu s /\ length (begun s') = S (length (begun s)).
+  cyc <> [] /\ run c s cyc = Some s' /\ ctl s' = ctl s /\ mu c s' = mu c s /\ length (begun s') = S (length (begun s)).
 Proof. exact refuted_l. Qed.
 
 (* ---- storage errors while the queue is stopped -----------------------------------------------------
@@ -137,8 +132,8 @@ Theorem queue_stop_error_only_sets_the_result : forall c s s1 s2,
 Proof. exact queue_stop_error_l. Qed.
 
 (* ---- a stored request split by max_size into several export calls --------------------------------------
-   (refCountDone + persistentQueue.onDone, [combine]/[kept_after] in Model.v; not part of the LTS, whose
-   requests are never split.)  The request stays in the storage iff at least one of its parts was only
+   (refCountDone + persistentQueue.onDone: [combine]/[kept_after] in Model.v, used by [LDone] for the verdict of
+   a request when its last outstanding part reports.)  The request stays in the storage iff at least one of its parts was only
    interrupted by the shutdown — whatever the other parts returned and in whatever order the parts report;
    it is reported as success iff every part succeeded. *)
 Theorem split_request_kept_iff_some_part_interrupted : forall rs, In RShutdown rs <-> kept_after rs = true.
@@ -165,6 +160,22 @@ Theorem backoff_released_by_stop : forall c s k w,
              nth_error (works s') k = Some (set_st (SDone RShutdown) w).
 Proof. exact backoff_released_l. Qed.
 
+(* ---- exporter without queue and batcher (cfg c_queue = false; labels LSend, LNoQueue) -------------------
+   Send runs the sender chain on the caller's goroutine, so there is nothing to drain or join.  Shutdown never
+   waits (its four steps are enabled one after the other whatever the callers do); when it has returned the
+   retry sender is stopped (so every back-off is released, backoff_released_by_stop, and by the ranking no
+   work makes more than the attempt it may already be in), the wrapped exporter is shut down, no helper
+   goroutine exists: the only goroutines inside the exporter are callers of Send. *)
+Theorem shutdown_without_queue_never_waits : forall c s, c_queue c = false -> pc s = PCalled ->
+  exists s', run c s [LCloseStop; LNoQueue; LInnerShutdown; LReturn] = Some s' /\ pc s' = PReturned /\
+             rstop s' = c_retry c /\ works s' = works s.
+Proof. exact direct_never_waits_l. Qed.
+
+Theorem shutdown_without_queue : forall c ls s,
+  c_queue c = false -> run c (init c) ls = Some s -> pc s = PReturned ->
+  rstop s = c_retry c /\ forallb is_caller (works s) = true /\ live s = length (works s) /\ postb s = 0.
+Proof. exact direct_returned_l. Qed.
+
 (* ---- the model that the correspondence run executes is this LTS ---------------------------------- *)
 Theorem scheduler_runs_are_runs : forall hc acts ls evss s,
   exec hc [] (init (h_cfg hc)) acts = Some (ls, evss, s) -> run (h_cfg hc) (init (h_cfg hc)) ls = Some s.
@@ -187,4 +198,6 @@ Print Assumptions split_request_verdict_order_independent.
 Print Assumptions split_request_success_iff_all_parts.
 Print Assumptions close_stop_stops_retry.
 Print Assumptions backoff_released_by_stop.
+Print Assumptions shutdown_without_queue_never_waits.
+Print Assumptions shutdown_without_queue.
 Print Assumptions scheduler_runs_are_runs.
